@@ -14,7 +14,6 @@ pub open spec fn sext(v: u16, bits: int) -> u16 {
     let m = (v as int) % p2(bits);
     if m >= p2(bits - 1) { (m - p2(bits) + 0x10000) as u16 } else { m as u16 }
 }
-pub open spec fn add16(a: u16, b: u16) -> u16 { ((a as int + b as int) % 0x10000) as u16 }
 pub open spec fn dec16(a: u16) -> u16 { if a == 0 { 0xFFFFu16 } else { (a - 1) as u16 } }
 pub open spec fn inc16(a: u16) -> u16 { if a == 0xFFFF { 0u16 } else { (a + 1) as u16 } }
 pub open spec fn cc_of(v: u16) -> u16 { if v >= 0x8000 { 4u16 } else if v == 0 { 2u16 } else { 1u16 } }
